@@ -561,6 +561,10 @@ class Reactor:
         """Reload the configuration and send to the peer the route which changed"""
         log.info(lazymsg('config.reload version={v}', v=version), 'configuration')
 
+        # a reload which a peer has not applied yet is applied before the file is read again (see the method)
+        for peer in self._peers.values():
+            peer.apply_pending_reload()
+
         reloaded = self.configuration.reload()
 
         if not reloaded:
@@ -610,6 +614,9 @@ class Reactor:
         """Kill the BGP session and restart it"""
         log.info(lazymsg('reactor.restart version={v}', v=version), 'reactor')
 
+        for peer in self._peers.values():
+            peer.apply_pending_reload()
+
         reloaded = self.configuration.reload()
 
         if reloaded is not True:
@@ -624,7 +631,9 @@ class Reactor:
                 log.debug(lazymsg('peer.removing name={name}', name=peer.neighbor.name()), 'reactor')
                 self._peers[key].remove()
             else:
-                self._peers[key].reestablish()
+                # with the neighbor which was just read: without it the peer kept its old Neighbor object, the routes
+                # removed from the file were given to the new session and the API looked at another object
+                self._peers[key].reestablish(self.configuration.neighbors[key])
         self.processes.start(self.configuration.processes, True)
 
     # def nexthops (self, peers):
